@@ -127,6 +127,7 @@ type rfRun struct {
 	hung       *HangInfo
 	errCalls   int // API calls that reported an error
 	emptyCalls int
+	absorbed   int // operations that absorbed a failed storage read and still delivered the complete right result
 	recovered  int // calls that succeeded after a transient fault ended
 	verified   int // full re-reads with fresh objects after a transient fault
 	trace      uint64
@@ -157,6 +158,7 @@ func runRFaultOnce(ws *WSeg, prog []ROp, fault *ReadFault, maxReadsPerCall int, 
 			callStartReads := ra.Calls()
 			callStartFired := ra.FiredCount()
 			hooks := &ropHooks{sched: sched, retry: true}
+			suspect, suspectAPI := "", ""
 			hooks.after = func(api string, err error, empty bool) bool {
 				reads := ra.Calls() - callStartReads
 				fired := ra.FiredCount() - callStartFired
@@ -168,9 +170,12 @@ func runRFaultOnce(ws *WSeg, prog []ROp, fault *ReadFault, maxReadsPerCall int, 
 					out.fail = &Fail{Prop: "C19", Oracle: "read-fault", Kind: "lock", Site: api, Detail: where + fmt.Sprintf(" returned (err=%v) with the segment mutex still held: every later dictionary lookup on this segment blocks forever", err)}
 					return false
 				}
-				if fired > 0 && err == nil && !empty {
-					out.fail = &Fail{Prop: "C19", Oracle: "read-fault", Kind: "silent-success", Site: api, Detail: where + fmt.Sprintf(": %d storage read(s) failed during the call, yet it reported neither an error nor an empty result", fired)}
-					return false
+				if fired > 0 && err == nil && !empty && suspect == "" {
+					// neither an error nor an empty result although storage reads failed
+					// during the call. That is a violation unless what the call delivered
+					// is nevertheless complete and right (the failed read was speculative,
+					// or the code retried): judged when the operation has finished
+					suspect, suspectAPI = where+fmt.Sprintf(": %d storage read(s) failed during the call, yet it reported neither an error nor an empty result", fired), api
 				}
 				if err != nil {
 					out.errCalls++
@@ -194,7 +199,8 @@ func runRFaultOnce(ws *WSeg, prog []ROp, fault *ReadFault, maxReadsPerCall int, 
 				return true
 			}
 			var opErr error
-			pi := Guard(func() { _, opErr = ExecROp(ws, seg, op, hooks) })
+			var opGot *RRes
+			pi := Guard(func() { opGot, opErr = ExecROp(ws, seg, op, hooks) })
 			if pi != nil {
 				out.fail = &Fail{Prop: "C19", Oracle: "read-fault", Kind: "panic", Site: pi.Site, Detail: fmt.Sprintf("%s: op #%d (%s) panicked (faults delivered so far: %d, during this op: %d): %s", label, oi, ROpNames[op.Kind], ra.FiredCount(), ra.FiredCount()-firedBeforeOp, pi.Msg)}
 				return
@@ -202,7 +208,22 @@ func runRFaultOnce(ws *WSeg, prog []ROp, fault *ReadFault, maxReadsPerCall int, 
 			if out.fail != nil {
 				return
 			}
-			_ = opErr
+			if suspect != "" {
+				if opErr == nil {
+					if d := DiffRRes(opGot, ExpectROp(ws, op)); d != "" {
+						out.fail = &Fail{Prop: "C19", Oracle: "read-fault", Kind: "silent-success", Site: suspectAPI, Detail: suspect + "; the operation then completed without any error but delivered a wrong or incomplete result: " + d}
+						return
+					}
+					out.absorbed++
+				} else if mm := (*RopMismatch)(nil); errors.As(opErr, &mm) {
+					// no API call reported an error; the harness found the outcome wrong
+					out.fail = &Fail{Prop: "C19", Oracle: "read-fault", Kind: "silent-success", Site: suspectAPI, Detail: suspect + "; no call of the operation reported an error, and the outcome is wrong: " + mm.Msg}
+					return
+				} else if pre := PrefixRRes(opGot, ExpectROp(ws, op)); pre != "" {
+					out.fail = &Fail{Prop: "C19", Oracle: "read-fault", Kind: "silent-success", Site: suspectAPI, Detail: suspect + "; what the operation had delivered when a later call did report an error is not a prefix of the right result: " + pre}
+					return
+				}
+			}
 			if sched.AnyLocked() {
 				out.fail = &Fail{Prop: "C19", Oracle: "read-fault", Kind: "lock", Site: ROpNames[op.Kind], Detail: fmt.Sprintf("%s: after op #%d (%s) the segment mutex is still held", label, oi, ROpNames[op.Kind])}
 				return
@@ -312,9 +333,17 @@ func runRFaultCase(c *Case, env *Env) *Result {
 							return res
 						}
 						if lerr == nil && ra.FiredCount() > 0 {
-							_ = seg
-							res.Fail = &Fail{Prop: "C19", Oracle: "read-fault", Kind: "silent-success", Site: "Load", Detail: label + ": Load returned a segment and no error"}
-							return res
+							// Load absorbed a failed read (a speculative read, a retry): fine
+							// if the segment it returned is complete and right - checkable
+							// once the storage is healthy again, i.e. for the one-shot fault
+							if count > 0 {
+								if f := checkModel("C19", ws, seg, label+": Load returned a segment and no error, and that segment", false); f != nil {
+									f.Oracle, f.Kind, f.Site = "read-fault", "silent-success", "Load"
+									res.Fail = f
+									return res
+								}
+								res.probe("load-absorbed-a-failed-read-and-returned-the-right-segment")
+							}
 						}
 					}
 				}
@@ -346,6 +375,7 @@ func runRFaultCase(c *Case, env *Env) *Result {
 		}
 		res.fault(kind, 1, fired)
 		res.probeN("calls-reporting-error", r.errCalls)
+		res.probeN("operations-absorbing-a-failed-read-with-the-right-result", r.absorbed)
 		res.probeN("calls-recovered-after-transient-fault", r.recovered)
 		res.probeN("segment-re-read-with-fresh-objects-after-transient-fault", r.verified)
 		if r.hung != nil {
